@@ -496,6 +496,7 @@ Definition judge_C09 (c : splitcase) : bool * bool * bool :=
    match sc_whole c with ObsOk ps _ _ _ => negb (Nat.eqb (List.length ps) 0) | _ => false end).
 
 (* ======================= C10: store independence ======================= *)
+From NS Require Import SheetRun.
 Record c10case := mk_c10case {
   tc_prog : program;
   tc_vars : list (string * string);
@@ -510,13 +511,26 @@ Definition log_has_world (o : observed) : bool :=
   | _ => false
   end.
 
+(* the observation is the outcome of the sheet semantics (Spec/SheetRun.v): computed from the ledger
+   alone, no store involved *)
+Definition obs_is_sheet (r : res sheet_result) (o : observed) : bool :=
+  match r, o with
+  | Ok (ps, txm, am), ObsOk ps' txm' am' _ =>
+      list_eqb posting_eqb ps ps' && amap_eqb value_eqb txm txm' && metadata_eqb am am'
+  | Err e, ObsErr n _ _ => String.eqb (err_name e) n
+  | Panic _, ObsPanic _ => true
+  | _, _ => false
+  end.
+
 Definition judge_C10 (c : c10case) : bool * bool * bool :=
   let agree := forallb (fun ko : store_kind * observed =>
                  agree_full (mk_icase (tc_prog c) (tc_vars c) (tc_bal c) (tc_meta c) (fst ko) None (tc_flag c) (snd ko))) (tc_obs c) in
   let prop := match tc_obs c with
               | [] => true
               | (_, o0) :: rest => forallb (fun ko : store_kind * observed => obs_same_result o0 (snd ko)) rest
-              end && forallb (fun ko : store_kind * observed => negb (log_has_world (snd ko))) (tc_obs c) in
+              end && forallb (fun ko : store_kind * observed => negb (log_has_world (snd ko))) (tc_obs c)
+              && (let sheet := run_sheet (tc_bal c) (tc_meta c) (tc_prog c) (tc_vars c) (tc_flag c) in
+                  forallb (fun ko : store_kind * observed => obs_is_sheet sheet (snd ko)) (tc_obs c)) in
   let nontrivial := existsb (fun ko : store_kind * observed => match snd ko with ObsOk _ _ _ (_ :: _) => true | _ => false end) (tc_obs c) in
   (agree, prop, nontrivial).
 
